@@ -415,6 +415,16 @@ func GenReq(r *core.Rand, t *Table, router string) Req {
 			req.Hdr[c] = "1"
 		}
 	}
+	if r.Chance(1, 12) {
+		// a second field of the same header: the framework reads the first one
+		req.More = map[string][]string{}
+		if req.HasCT {
+			req.More["Content-Type"] = []string{r.Pick(Medias)}
+		}
+		if req.HasAcc {
+			req.More["Accept"] = []string{r.Pick(append([]string{"*/*", "image/png"}, Medias...))}
+		}
+	}
 	if mode >= 55 {
 		// single-mutation near miss
 		muts := []string{"method", "ct", "accept", "cond", "body"}
